@@ -60,14 +60,44 @@ def cases(run: Run):
     out = list(corpus(PID))
     for _ in range(run.n(150, 2500)):
         kind = rng.choice(["standard", "sliding", "fading"])
-        c = {"kind": kind, "alpha": rng.choice([0.05, 0.01, 0.001, 0.1, 0.5]), "h": gen_history(rng, run.n(25, 50))}
+        # significances over the whole open interval: the usual ones, very strict ones (1 - alpha rounds to 1 below 1.1e-16) and lax ones
+        alpha = rng.choice(ALPHAS_USUAL) if rng.random() < 0.6 else rng.choice(ALPHAS_EXTREME)
+        c = {"kind": kind, "alpha": alpha, "h": gen_history(rng, run.n(25, 50))}
         if kind == "sliding":
             c["w"] = rng.choice([1, 2, 3, 4, 4, 5, 8, 12])
         if kind == "fading":
             c["delta"] = Fraction(rng.choice([1, 2, 4, 6, 7, 13, 15]), 16)
         c["scale"] = Fraction(rng.choice([8, 9, 12, 16, 32, 80]), 8)
+        if rng.random() < 0.4:
+            calibrate(c, rng.choice([-0.3, -1e-2, -1e-4, 1e-4, 1e-2, 0.3, 3.0]))
         out.append(c)
     return out
+
+
+ALPHAS_USUAL = [0.05, 0.01, 0.001, 0.1, 0.5]
+ALPHAS_EXTREME = [1e-6, 1e-9, 1e-12, 1e-15, 1e-17, 1e-30, 0.9, 0.999, 1 - 1e-9]
+
+
+def calibrate(c, eps):
+    """rescale the last innovation so that the documented statistic of the last step is (1 + eps) x its bound: decisions are then
+    exercised next to the bound for every significance, not only where random innovations happen to land"""
+    from scipy.stats import chi2
+
+    h = c["h"]
+    m1, dof = documented(c)[-1]
+    q = exact_q(h[-1])
+    if q == 0:
+        return
+    # the statistic is affine in the last step's q: m(s) = m1 + coef * q * (s^2 - 1)
+    coef = Fraction(1) if c["kind"] != "fading" else 1 + Fraction(c["delta"])
+    target = Fraction(float(chi2.isf(c["alpha"], float(dof))) * (1 + eps))
+    s2 = 1 + (target - m1) / (coef * q)
+    if s2 <= 0:
+        return
+    sc = Fraction(float(s2) ** 0.5).limit_denominator(1 << 16)
+    if sc > 0:
+        h[-1]["nu"] = [x * sc for x in h[-1]["nu"]]
+        c["calibrated"] = eps
 
 
 def make_detector(c):
@@ -223,6 +253,9 @@ def run_cases(run: Run, cs):
     for idx, (c, i) in enumerate(zip(cs, impls)):
         jc = enc(c)
         dims = {len(s["nu"]) for s in c["h"]}
+        run.count("alpha:" + ("usual" if c["alpha"] in ALPHAS_USUAL else f"{c['alpha']:.0e}" if c["alpha"] < 0.5 else "lax"))
+        if "calibrated" in c:
+            run.count("calibrated-to-bound")
         run.case(c["kind"], jc if len(c["h"]) <= 3 else {**{k: v for k, v in jc.items() if k != "h"}, "h_len": len(c["h"]), "h_first": jc["h"][0]},
                  nontrivial=len(c["h"]) > 1, branch=("vary-dim" if len(dims) > 1 else "fixed-dim"))
         if c["kind"] == "sliding":
